@@ -124,6 +124,7 @@ from ..number import (
     MPBFloatContext,
     MPFixedContext,
     MPSFloatContext,
+    OverflowMode,
     RealFloat,
     RoundingMode,
 )
@@ -298,6 +299,10 @@ class _Prober:
         far apart stand in for the check; a format whose answer varies between
         them is declined rather than silently mis-lowered.
         """
+        if getattr(self.ctx, 'overflow', None) == OverflowMode.WRAP:
+            # a wrapped value depends on the operand; two sampled magnitudes
+            # can still agree modulo the number of representable values
+            return None
         try:
             near = [self.ctx.round(shift(b, 1)) for b in (maxval, neg_maxval)]
             far = [self.ctx.round(shift(b, 64)) for b in (maxval, neg_maxval)]
